@@ -388,9 +388,15 @@ func c09Part() string {
 	return "stats"
 }
 
+// c09DumpRow is one line of a condensed goroutine dump.
+type c09DumpRow struct {
+	N     int    `json:"goroutines"`
+	Stack string `json:"state_and_frames_innermost_first"`
+}
+
 // c09DumpSummary condenses a goroutine dump: per goroutine that is inside the
 // stats package (or bbolt on its behalf), its state and its product frames.
-func c09DumpSummary(dump string) any {
+func c09DumpSummary(dump string) []c09DumpRow {
 	count := map[string]int{}
 	for _, block := range strings.Split(dump, "\n\n") {
 		lines := strings.Split(block, "\n")
@@ -436,13 +442,9 @@ func c09DumpSummary(dump string) any {
 		}
 		count[state+" "+strings.Join(frames, " <- ")]++
 	}
-	type row struct {
-		N     int    `json:"goroutines"`
-		Stack string `json:"state_and_frames_innermost_first"`
-	}
-	var rows []row
+	var rows []c09DumpRow
 	for k, n := range count {
-		rows = append(rows, row{n, k})
+		rows = append(rows, c09DumpRow{n, k})
 	}
 	sort.Slice(rows, func(i, j int) bool { return rows[i].Stack < rows[j].Stack })
 	return rows
@@ -799,7 +801,7 @@ func c09ConcHistory(rep *verifkit.Report, rng *rand.Rand, dir string, idx int, s
 
 func TestVerifC09Concurrent(t *testing.T) {
 	rep := verifkit.New(c09Prop(), c09Part(),
-		"case = one round of a concurrent history on a running module: 8 updater goroutines + 2 readers of GET /control/stats (+ hour advancer that either calls flush() as the only flusher or, with the real Start() loop alive, waits for it; + optional retention toggler); checked per read (between completed and started updates), per round with porcupine against a counter model, at quiescence exactly (totals, categories, per-hour bounds from the hour tags), and across a final clean restart; -race is on; non-trivial = the round had a rollover that overlapped at least one update; distinct by the observed operation order and read values; storm rounds: 24-60 back-to-back rollovers under 4 hammering readers; reset rounds (C09 only): POST /control/stats_reset hammered against the real loop and readers while every tick is a rollover, then reset, count, advance, wait for the real loop, count, compare; shutdown rounds (C09 only): counts in hour H, a writer transaction (as a dashboard read holds) delays Close between detaching the database and serialising the unit, the hour id changes and flush runs in that gap, then New on the same file and the model comparison; in-flight-reset rounds (C09 only): 1-4 reads (GET /control/stats, TopClientsIP) are inside loadUnits when POST /control/stats_reset starts, after everything has returned k updates are counted and every later report must show exactly those k; pending-rollover rounds (C09 only): a GET is kept in flight holding the configuration lock, the hour id changes, the hourly check starts and waits behind the read, a reset completes, the read ends; after quiescence exactly the queries counted after the reset must be reported, also after a restart")
+		"case = one round of a concurrent history on a running module: 8 updater goroutines + 2 readers of GET /control/stats (+ hour advancer that either calls flush() as the only flusher or, with the real Start() loop alive, waits for it; + optional retention toggler); checked per read (between completed and started updates), per round with porcupine against a counter model, at quiescence exactly (totals, categories, per-hour bounds from the hour tags), and across a final clean restart; -race is on; non-trivial = the round had a rollover that overlapped at least one update; distinct by the observed operation order and read values; storm rounds: 24-60 back-to-back rollovers under 4 hammering readers; reset rounds (C09 only): POST /control/stats_reset hammered against the real loop and readers while every tick is a rollover, then reset, count, advance, wait for the real loop, count, compare; shutdown rounds (C09 only): counts in hour H, a writer transaction (as a dashboard read holds) delays Close between detaching the database and serialising the unit, the hour id changes and flush runs in that gap, then New on the same file and the model comparison; in-flight-reset rounds (C09 only): 1-4 reads (GET /control/stats, TopClientsIP) are inside loadUnits when POST /control/stats_reset starts, after everything has returned k updates are counted and every later report must show exactly those k; reset-polling rounds (every property): 4-6 readers poll GET /control/stats / TopClientsIP in tight loops while resets are issued back to back, updaters count and the hour rolls over now and then - no progress of any of them for 20 s with goroutines blocked inside the module is a deadlock (violation under C05, inconclusive under C09); pending-rollover rounds (C09 only): a GET is kept in flight holding the configuration lock, the hour id changes, the hourly check starts and waits behind the read, a reset completes, the read ends; after quiescence exactly the queries counted after the reset must be reported, also after a restart")
 	defer func() {
 		if err := rep.Write(); err != nil {
 			t.Fatal(err)
@@ -835,6 +837,11 @@ func TestVerifC09Concurrent(t *testing.T) {
 	need := []string{"rollovers", "rollovers_done_by_the_real_loop", "updates_overlapping_a_rollover",
 		"reads_overlapping_updates", "porcupine_linearizable", "restarts_after_traffic",
 		"rollovers_overlapping_2_or_more_reads_and_an_update"}
+	// Reset rounds with polling readers: under every property.
+	for i, k := 0, verifkit.Pick(4, 40); i < k && !rep.Violated(); i++ {
+		c09ResetPollingRound(rep, rng, dir, i)
+	}
+	need = append(need, "reset_polling_rounds_finished", "resets_while_readers_poll")
 	if c09Prop() == "C09" {
 		for i, k := 0, verifkit.Pick(3, 20); i < k && !rep.Violated() && !c09RealLoopStuck.Load(); i++ {
 			c09ResetLoopHistory(rep, rng, dir, i)
@@ -1802,4 +1809,230 @@ func c09ResetWhileRolloverPendingHistory(rep *verifkit.Report, rng *rand.Rand, d
 	if idx == 0 {
 		rep.Sample(map[string]any{"reset_while_rollover_pending": steps})
 	}
+}
+
+// c09NoProgressAfter: a round in which no reader, updater, reset or rollover
+// completes a single call for this long is stuck (calls take micro- to
+// milliseconds); decided on progress, not on throughput.
+const c09NoProgressAfter = 20 * time.Second
+
+// c09ResetPollingRound: dashboards polling while the statistics are reset.
+// 4-6 readers call the real GET /control/stats handler (which takes the
+// configuration lock as in production) or TopClientsIP in tight loops, 4
+// updaters count queries, one goroutine issues POST /control/stats_reset back
+// to back (a fixed number, then everybody stops), and one goroutine advances
+// the hour and calls flush() (the only flusher) now and then.  What the calls
+// return while resets are in progress is not specified (reads may fail while
+// the database is detached; counted).  What must hold: every goroutine
+// finishes.  If none of them completes a call for c09NoProgressAfter and the
+// goroutine dump shows goroutines blocked inside the stats package, the round
+// is deadlocked: violation deadlock:stats:reset-polling-round under C05,
+// inconclusive under C09 (whose statement is about counts).  Under C09 the
+// round ends with a quiescent reset, k updates and a report that must show
+// exactly those k.
+func c09ResetPollingRound(rep *verifkit.Report, rng *rand.Rand, dir string, idx int) {
+	file := filepath.Join(dir, fmt.Sprintf("polling-%d.db", idx))
+	defer os.Remove(file)
+	hour := &atomic.Uint32{}
+	hour.Store(400000 + uint32(rng.Intn(100000)))
+	limitH := []uint32{24, 168, 720}[rng.Intn(3)]
+	nReaders := 4 + rng.Intn(3)
+	nResets := verifkit.Pick(120, 300)
+	desc := map[string]any{"limit_hours": limitH, "readers": nReaders, "updaters": 4, "resets": nResets, "first_hour": hour.Load()}
+	in, err := c09Open(file, hour, limitH, true, false)
+	if err != nil {
+		rep.Violate("conc:new-failed", "stats.New failed on a fresh file: "+err.Error(), desc)
+		return
+	}
+	closeIt := true
+	defer func() {
+		if closeIt {
+			in.close()
+		}
+	}()
+	// Some stored hours, so that reads hold their transaction for a while.
+	for i, n := 0, 2+rng.Intn(6); i < n; i++ {
+		for j, k := 0, 1+rng.Intn(15); j < k; j++ {
+			in.update(c09ValidEntry(rng, 20, 30))
+		}
+		hour.Add(1)
+		in.flush()
+	}
+	entries := make([][]*Entry, 4)
+	for g := range entries {
+		for i := 0; i < 40; i++ {
+			entries[g] = append(entries[g], c09ValidEntry(rng, 20, 30))
+		}
+	}
+	readerKinds := make([]bool, nReaders) // true: TopClientsIP
+	for i := range readerKinds {
+		readerKinds[i] = rng.Intn(4) == 0
+	}
+
+	var stop atomic.Bool
+	var progress, resets, readsOK, readsFailed, updates, rollovers atomic.Int64
+	var panics sync.Map
+	var wg sync.WaitGroup
+	guard := func(name string, f func()) {
+		defer func() {
+			if p := recover(); p != nil {
+				panics.Store(name, fmt.Sprint(p))
+			}
+		}()
+		f()
+	}
+	for i := 0; i < nReaders; i++ {
+		wg.Add(1)
+		go func(top bool) {
+			defer wg.Done()
+			for !stop.Load() {
+				if top {
+					guard("TopClientsIP", func() { in.s.TopClientsIP(10) })
+					readsOK.Add(1)
+				} else {
+					code, _, p := in.call("GET", "/control/stats", "")
+					switch {
+					case p != nil:
+						panics.Store("GET /control/stats", fmt.Sprint(p))
+					case code != 200:
+						readsFailed.Add(1)
+					default:
+						readsOK.Add(1)
+					}
+				}
+				progress.Add(1)
+			}
+		}(readerKinds[i])
+	}
+	for g := range entries {
+		wg.Add(1)
+		go func(g int) {
+			defer wg.Done()
+			for i := 0; !stop.Load(); i++ {
+				if p := in.update(entries[g][i%len(entries[g])]); p != "" {
+					panics.Store("Update", p)
+				}
+				updates.Add(1)
+				progress.Add(1)
+				if i%8 == 7 {
+					runtime.Gosched()
+				}
+			}
+		}(g)
+	}
+	wg.Add(1)
+	go func() { // rollovers now and then
+		defer wg.Done()
+		for !stop.Load() {
+			time.Sleep(3 * time.Millisecond)
+			hour.Add(1)
+			if p := in.flush(); p != "" {
+				panics.Store("flush", p)
+			}
+			rollovers.Add(1)
+			progress.Add(1)
+		}
+	}()
+	wg.Add(1)
+	go func() { // the resets
+		defer wg.Done()
+		defer stop.Store(true)
+		for i := 0; i < nResets; i++ {
+			code, _, p := in.call("POST", "/control/stats_reset", "")
+			if p != nil {
+				panics.Store("POST /control/stats_reset", fmt.Sprint(p))
+				return
+			}
+			if code == 200 {
+				resets.Add(1)
+			}
+			progress.Add(1)
+			runtime.Gosched()
+		}
+	}()
+
+	joined := make(chan struct{})
+	go func() { wg.Wait(); close(joined) }()
+	last, lastChange := progress.Load(), time.Now()
+	tick := time.NewTicker(500 * time.Millisecond)
+	defer tick.Stop()
+wait:
+	for {
+		select {
+		case <-joined:
+			break wait
+		case <-tick.C:
+			if p := progress.Load(); p != last {
+				last, lastChange = p, time.Now()
+				continue
+			}
+			if time.Since(lastChange) < c09NoProgressAfter {
+				continue
+			}
+			buf := make([]byte, 4<<20)
+			dump := string(buf[:runtime.Stack(buf, true)])
+			summary := c09DumpSummary(dump)
+			fmt.Fprintf(os.Stderr, "C09 watchdog: reset-polling round made no progress for %s\n%s\n", c09NoProgressAfter, dump)
+			desc["calls_completed"] = map[string]int64{"resets": resets.Load(), "reads_ok": readsOK.Load(), "reads_failed": readsFailed.Load(),
+				"updates": updates.Load(), "rollovers": rollovers.Load()}
+			what := fmt.Sprintf("readers polling GET /control/stats / TopClientsIP, updaters and POST /control/stats_reset: no call of any of them completed for %s", c09NoProgressAfter)
+			blocked := false
+			for _, row := range summary {
+				if !strings.HasPrefix(row.Stack, "[sleep]") {
+					blocked = true // waiting for a lock / semaphore inside the module
+				}
+			}
+			switch {
+			case !blocked:
+				rep.Inconcl(what + ", but no goroutine is inside the stats package (goroutine dump in the part's log)")
+			case c09Prop() == "C09":
+				rep.Inconcl(what + " (goroutines blocked inside the stats package; dump in the part's log)")
+			default:
+				rep.Violate("deadlock:stats:reset-polling-round", what+" and goroutines are blocked inside the statistics module: its callers wait for each other for good",
+					map[string]any{"round": desc, "blocked_goroutines": summary})
+			}
+			closeIt = false
+			_ = rep.Write()
+			os.Exit(3)
+		}
+	}
+	rep.Event("reset_polling_rounds_finished")
+	rep.EventN("resets_while_readers_poll", int(resets.Load()))
+	rep.EventN("reads_while_resets_run", int(readsOK.Load()))
+	rep.EventN("updates_while_resets_run", int(updates.Load()))
+	rep.EventN("rollovers_while_resets_run", int(rollovers.Load()))
+	for i := int64(0); i < readsFailed.Load(); i++ {
+		rep.Unspec("read-failed-while-reset-in-progress")
+	}
+	crashed := false
+	panics.Range(func(k, v any) bool {
+		rep.Violate("conc:reset-polling-round:panic:"+k.(string), "a call panicked during the reset-polling round: "+v.(string), map[string]any{"round": desc})
+		crashed = true
+		return true
+	})
+	ok := !crashed
+	if ok && c09Prop() == "C09" {
+		// Quiescent: reset, count, compare.
+		if p := in.reset(); p != "" {
+			rep.Violate("conc:reset-polling-round:reset-failed", "POST /control/stats_reset failed at quiescence: "+p, map[string]any{"round": desc})
+			ok = false
+		} else {
+			m := &c09Model{Hours: map[uint32]*c09Hour{}, Cur: hour.Load(), LimitH: limitH, Enabled: true}
+			for i, k := 0, 1+rng.Intn(15); i < k; i++ {
+				e := c09ValidEntry(rng, 20, 30)
+				in.update(e)
+				m.count(m.Cur, e.Result)
+			}
+			if r, problem := in.read(); problem != "" {
+				rep.Violate("conc:reset-polling-round:read-failed", "GET /control/stats failed at quiescence: "+problem, map[string]any{"round": desc})
+				ok = false
+			} else if mm, _ := m.check(r); len(mm) > 0 {
+				rep.Violate("conc:reset-polling-round:"+mm[0].Kind, "after the round, a reset and a few updates: "+mm[0].Detail,
+					map[string]any{"round": desc, "mismatches": mm, "report": c09Brief(r, m.first()), "model": m.snapshot()})
+				ok = false
+			}
+		}
+	}
+	rep.Eval(ok && resets.Load() > 0 && readsOK.Load() > 0, fmt.Sprintf("polling|%d|%d|%d|%d", idx, limitH, nReaders, hour.Load()))
+	rep.Class("shape:reset-polling")
 }
